@@ -209,6 +209,9 @@ fn main() {
         jobs.push(("garbage".into(), garbage(&mut ctx.rng)));
     }
     jobs.extend(deep_texts());
+    // self-referential definitions through every type constructor; generic names with every type-argument count
+    jobs.extend(infinite_type_texts());
+    jobs.extend(arity_texts());
     // two-file texts: every import form over a damaged / truncated / self-importing library file
     let heads = ["use lib1\n", "use lib1.(f, Pt)\n", "use lib1 except (f)\n", "use lib1 as lb\n", "use lib1\nuse lib1\n", "use lib1.(nothere)\n", "use main\nuse lib1\n"];
     let n_imp = if quick { 120 } else { 6000 };
@@ -228,43 +231,20 @@ fn main() {
         jobs.push((format!("import:{}", ["whole", "mutated", "prefix", "cyclic"][k % 4]), format!("{head}{body}\x1e{lib}")));
     }
     let nw = n_threads();
-    // probes of the confirmed crashes whose fix is pending (see fecorpus::GATES)
-    let gate_inputs: Vec<String> = GATES.iter().map(|(_, _, t)| t.to_string()).collect();
+    // regression inputs: the confirmed crashes whose fixes have landed (fecorpus::GATES); a crash is a failing input
+    let gate_inputs: Vec<String> = GATES.iter().map(|(_, t)| t.to_string()).collect();
     let gate_res = run_workers(&["--worker"], &gate_inputs, GATES.len(), std::time::Duration::from_secs(20));
-    let mut gated_sites: BTreeMap<String, String> = BTreeMap::new();
-    let mut gate_aborts: Option<&str> = None;
-    for ((id, pending, text), r) in GATES.iter().zip(gate_res) {
-        if !pending {
-            // the fix has landed: a regression input
-            let crashed = match &r {
-                Res::Died(why) => Some(format!("takes the process down ({why})")),
-                Res::Ok(s) => {
-                    let o = decode(s);
-                    if o.crashes.is_empty() { None } else { Some(format!("panics ({:?})", o.crashes[0])) }
-                }
-            };
-            match crashed {
-                Some(how) => ctx.spec_fail(format!("regression of {id} (fixed earlier): the front end {how} on {:?}", text)),
-                None => ctx.count("regression-probe:pass"),
-            }
-            continue;
-        }
-        match r {
-            Res::Died(why) => {
-                gate_aborts = Some(id);
-                ctx.notes.push(format!("{id}: the probe still takes the process down ({why}); process deaths on texts of its shape are attributed to it (fix pending)"));
-            }
+    for ((id, text), r) in GATES.iter().zip(gate_res) {
+        let crashed = match &r {
+            Res::Died(why) => Some(format!("takes the process down ({why})")),
             Res::Ok(s) => {
-                let o = decode(&s);
-                if o.crashes.is_empty() {
-                    ctx.notes.push(format!("{id}: the probe no longer crashes; nothing is gated for it"));
-                } else {
-                    for c in &o.crashes {
-                        gated_sites.insert(c.1.clone(), id.to_string());
-                    }
-                    ctx.notes.push(format!("{id}: the probe still panics at {}; panics at that site are attributed to it (fix pending)", o.crashes[0].1));
-                }
+                let o = decode(s);
+                if o.crashes.is_empty() { None } else { Some(format!("panics ({:?})", o.crashes[0])) }
             }
+        };
+        match crashed {
+            Some(how) => ctx.spec_fail(format!("regression of {id} (fixed earlier): the front end {how} on {:?}", text)),
+            None => ctx.count("regression-probe:pass"),
         }
     }
     let inputs: Vec<String> = jobs.iter().map(|j| j.1.clone()).collect();
@@ -272,7 +252,7 @@ fn main() {
     let mut seen: BTreeMap<String, u64> = BTreeMap::new();
     let mut disagree = 0;
     for ((label, text), r) in jobs.iter().zip(results) {
-        let kind = label.split(':').take(if label.starts_with("mut") || label.starts_with("deep") || label.starts_with("long") || label.starts_with("import") { 2 } else { 1 }).collect::<Vec<_>>().join(":");
+        let kind = label.split(':').take(if label.starts_with("mut") || label.starts_with("deep") || label.starts_with("long") || label.starts_with("import") || label.starts_with("inftype") || label.starts_with("arity") { 2 } else { 1 }).collect::<Vec<_>>().join(":");
         let kind = kind.trim_end_matches(|c: char| c.is_ascii_digit()).to_string();
         ctx.count(&format!("text:{kind}"));
         if !text.is_ascii() {
@@ -281,12 +261,6 @@ fn main() {
         let o = match r {
             Res::Ok(s) => decode(&s),
             Res::Died(why) => {
-                if let Some(id) = gate_aborts {
-                    if self_referential_fn(text) {
-                        ctx.count(&format!("gated:{id}"));
-                        continue;
-                    }
-                }
                 let n = seen.entry(format!("process:{why}")).or_insert(0);
                 *n += 1;
                 if *n <= 3 {
@@ -304,10 +278,6 @@ fn main() {
         ctx.count(&format!("check:{}", o.check));
         ctx.count(&format!("compile:{}", o.compile));
         for (api, site, msg) in &o.crashes {
-            if let Some(id) = gated_sites.get(site) {
-                ctx.count(&format!("gated:{id}"));
-                continue;
-            }
             let n = seen.entry(site.clone()).or_insert(0);
             *n += 1;
             if *n == 1 {
